@@ -18,9 +18,9 @@ from .c13 import criteria
 
 PID = 'C15'
 TIMEOUT = 60.0
-RULE = ('BFS from 7 containers (one with zero cycles, one with cycles of thousands of samples - depth 2 only) over 25 state-changing operations (8 metric computations in cycle / augmented mode, 3 metric '
-        'additions incl. a wrong-length one, cycle timings, 10 subset selections covering all six comparators and '
-        'negative / decimal / exponent literals, chain timings) to the fix-point of canonical states or the depth bound; '
+RULE = ('BFS from 7 containers (one with zero cycles, one with cycles of thousands of samples - depth 2 only) over 31 state-changing operations (8 metric computations in cycle / augmented mode, 4 metric '
+        'additions incl. a wrong-length one, 2 re-additions of a stored chain metric under another name, cycle timings, 14 subset selections covering all six comparators, '
+        'negative / decimal / exponent literals and chain-level metrics, chain timings) to the fix-point of canonical states or the depth bound; '
         '14 observations after every transition; non-trivial = the operation changed the canonical state')
 ASSUMPTIONS = ['subset selections are only offered when every metric they name exists (a failed selection leaves the '
                'container half-updated; that error path is outside the statement)',
@@ -87,8 +87,12 @@ CONDS = [
     ['m2!=-1', 'm1<2.5e1'],
     ['m1==1600000002'],          # large-magnitude metric (time stamps): equality is exact, not "close"
     ['m1!=1600000001', 'is_good>=0'],
+    ['chain_position==0'],       # conditions on chain-level metrics (written by the chain timings, not by the user)
+    ['chain_len_cycles>=2', 'is_good>=0'],
 ]
-OPS = ([('compute',) + c for c in COMPUTE] + [('add',) + a for a in ADD] + [('timings',)] +
+# a stored metric handed back to the container under another name, exactly as the container holds it (no copy)
+ALIAS = [('m3', 'chain_ind'), ('m3', 'chain_len_samples')]
+OPS = ([('compute',) + c for c in COMPUTE] + [('add',) + a for a in ADD] + [('alias',) + a for a in ALIAS] + [('timings',)] +
        [('pick', i) for i in range(len(CONDS))] + [('chain_timings',)])
 COMPARATORS = {'==': lambda a, b: a == b, '!=': lambda a, b: a != b, '<=': lambda a, b: a <= b,
                '>=': lambda a, b: a >= b, '<': lambda a, b: a < b, '>': lambda a, b: a > b}
@@ -180,6 +184,8 @@ class Model:
                 elif what == 'big':
                     self.metrics[name] = [1.6e9 + i for i in range(self.K)]
                 # wrong length: rejected, nothing stored
+            elif kind == 'alias':
+                self.metrics[op[1]] = list(self.metrics[op[2]])
             elif kind == 'timings':
                 self.metrics['start_sample'] = [float(a) for a, b in self.segs]
                 self.metrics['stop_sample'] = [float(b - 1) for a, b in self.segs]
@@ -237,6 +243,8 @@ class Model:
     def enabled(self, op):
         if op[0] == 'pick':
             return all(parse(c)[0] in self.metrics for c in CONDS[op[1]])
+        if op[0] == 'alias':
+            return op[2] in self.metrics
         return True
 
     def table(self, conds=None):
@@ -267,6 +275,8 @@ def real_apply(C, op, model):
                     C.add_cycle_metric(name, np.arange(C.ncycles + 1).astype(float))
                 except ValueError:
                     pass    # rejecting loudly is fine too
+        elif kind == 'alias':
+            C.add_cycle_metric(op[1], C.metrics[op[2]])
         elif kind == 'timings':
             C.compute_cycle_timings()
         elif kind == 'pick':
@@ -314,7 +324,7 @@ def compare(C, model, label, d, viols, aug_metrics):
         viols.append(('conditions', '%s [%s]: mask_conditions %r, model %r' % (d, label, mc, model.conds)))
 
 
-def observe(C, model, label, d, viols):
+def observe(C, model, label, d, viols, tables=True):
     # get_matching_cycles for every condition list of the menu
     for conds in CONDS:
         try:
@@ -330,6 +340,8 @@ def observe(C, model, label, d, viols):
         if gexc != wexc or got != want:
             viols.append(('matching', '%s [%s]: get_matching_cycles(%r) -> %r / %r, model %r / %r' % (d, label, conds, got, gexc, want, wexc)))
             return
+    if not tables:
+        return
     # tabular exports
     for what in ('all', 'subset', 'conditions'):
         try:
@@ -376,16 +388,19 @@ def transition(root, hist):
         model.apply(op)
         if op[0] == 'compute':
             (aug_metrics.add if op[4] == 'augmented' else aug_metrics.discard)(op[1])
-        elif op[0] == 'add' and op[2] != 'wrong-length':
+        elif (op[0] == 'add' and op[2] != 'wrong-length') or op[0] == 'alias':
             aug_metrics.discard(op[1])
         for C in real.values():
             real_apply(C, op, model)
+            # the queries of the observation menu are part of every history step (a container may keep state
+            # between queries); their answers were judged when this prefix was itself the history under test
+            observe(C, model, '', d, [], tables=False)
     op = hist[-1]
     before = model.canon()
     mexc = model.apply(op)
     if op[0] == 'compute':
         (aug_metrics.add if op[4] == 'augmented' else aug_metrics.discard)(op[1])
-    elif op[0] == 'add' and op[2] != 'wrong-length':
+    elif (op[0] == 'add' and op[2] != 'wrong-length') or op[0] == 'alias':
         aug_metrics.discard(op[1])
     for label, C in real.items():
         rexc = real_apply(C, op, model)
@@ -426,8 +441,8 @@ def fmt(op):
     return '%s(%s)' % (op[0], ', '.join(str(x) for x in op[1:]))
 
 
-SMALL_OPS = [OPS[0], OPS[3], OPS[5], ('add', 'm2', 'alt'), ('add', 'm1', 'big'), ('timings',), ('pick', 0), ('pick', 3), ('pick', 5), ('pick', 7), ('pick', 10),
-             ('chain_timings',)]
+SMALL_OPS = [OPS[0], OPS[3], OPS[5], ('add', 'm2', 'alt'), ('add', 'm1', 'big'), ('alias', 'm3', 'chain_ind'), ('timings',), ('pick', 0), ('pick', 3),
+             ('pick', 5), ('pick', 7), ('pick', 8), ('pick', 10), ('pick', 12), ('chain_timings',)]
 
 
 def bounds(tier):
